@@ -311,6 +311,12 @@ def h_replay_normalise_monotone(a: int, b: int) -> bool:
     return L.replay_normalise_monotone(a, b)
 
 
+def h_replay_normalise_monotone_1ulp(a: int, b: int) -> bool:
+    from harness import _E2_lemmas as L
+
+    return L.replay_normalise_monotone_1ulp(a, b)
+
+
 META = {
     "level": "model_checking",
     "claim": "Bounded model checking by symbolic execution of the real ExecutionTrace.merge/_merge_min, analyze_results, "
@@ -353,7 +359,7 @@ def obligations(tier: str):
     # normalise(v) in [0,1], normalise(v) == 0 <=> v == 0, monotone, for every non-NaN v >= 0 in Float64
     from harness import _E2_lemmas as L
 
-    obs += L.normalise_obligations(tier, h_replay_normalise, h_replay_normalise_monotone)
+    obs += L.normalise_obligations(tier, h_replay_normalise, h_replay_normalise_monotone_1ulp)
     obs.append(Chx("mono1", h_mono1, timeout=T, fix={"klo": 0, "khi": 1}, split={"sa": S}))
     hi = 3 if q else 4  # exact IEEE distances: quick 5e-324, 1e308; thorough also 1e-17
     obs.append(Chx("mono1_ieee", h_mono1, timeout=T, fix={"klo": 2, "khi": hi}, split={"sa": S} if q else {"sa": S, "sb": S}))
